@@ -8,10 +8,10 @@ import (
 	"io"
 	"log"
 	"net"
-	"os"
 	"net/http"
 	"net/http/httptest"
 	"net/url"
+	"os"
 	goruntime "runtime"
 	"strconv"
 	"strings"
@@ -71,6 +71,7 @@ type c12Under struct {
 	atEnd      bool
 	closes     int
 	endAtClose bool
+	ctx        context.Context // the request's (nil: none): a body of net/http's transport ends with it
 }
 
 func (u *c12Under) terminal() error {
@@ -81,6 +82,9 @@ func (u *c12Under) terminal() error {
 }
 
 func (u *c12Under) Read(p []byte) (int, error) {
+	if u.ctx != nil && u.ctx.Err() != nil && len(p) > 0 {
+		return 0, u.ctx.Err()
+	}
 	var b *c12Beh
 	if len(u.sched) > 0 {
 		b = &u.sched[0]
@@ -183,6 +187,7 @@ func c12ExecD(in []string) []string {
 			return &http.Response{StatusCode: 200, Body: io.NopCloser(strings.NewReader("an exchange before")), Request: req}, nil
 		}
 		resp := &http.Response{StatusCode: 200, Status: "200 OK", Proto: "HTTP/1.1", ProtoMajor: 1, ProtoMinor: 1, Body: u, Request: req, Header: http.Header{}}
+		u.ctx = req.Context()
 		// what else the response says makes no difference to what is owed to its body
 		switch c10Pick(in, 1<<12) >> 4 % 5 {
 		case 1:
@@ -468,11 +473,17 @@ type c12Body struct {
 	endAtClose bool
 	reads      int
 	onRead     func(n int)
+	strictCtx  bool
 }
 
 func (b *c12Body) Read(p []byte) (int, error) {
 	if len(p) == 0 {
 		return 0, nil
+	}
+	if b.strictCtx && b.ctx.Err() != nil {
+		// like a body of net/http's transport: once the request's context is done, nothing more comes out of it
+		// (in plans without cancellation or deadline that is only after the call has given its context back)
+		return 0, b.ctx.Err()
 	}
 	b.mu.Lock()
 	if b.left > 0 {
@@ -667,6 +678,7 @@ func (w *c12Wire) RoundTrip(req *http.Request) (*http.Response, error) {
 		return nil, c12CtxErr(ctx)
 	}
 	b := &c12Body{ctx: ctx, abort: w.abort, left: p.respChunks, term: p.respTerm, fat: p.respChunks >= 8}
+	b.strictCtx = p.cancel == 'n' && p.timeoutMs >= 600000 && (p.opCtx == "n" || p.opCtx == "l") && (p.rtCtx == "n" || p.rtCtx == "l")
 	if p.cancel == 'r' {
 		b.onRead = func(n int) {
 			if n == 1 {
